@@ -417,11 +417,15 @@ func main() {
 	wide, coreA, mergeA := wideAlphabet(addPowers), coreAlphabet(), mergeAlphabet()
 	// depth of histories per start-set size (index n); wideDepth leading
 	// operations range over the wide alphabet
-	depthByN := map[int]int{1: 4, 2: 4, 3: 4, 4: 4}
+	// (measured: the number of histories grows about 6-7x per operation; all
+	// 90 sets to length 4 are ~0.9M histories / ~170 cpu-s, the sets of 3 and 4
+	// members to length 5 another ~5M, so the tiers give the longer histories
+	// to the small sets and let the follow-up checks R2/R4/R5 look 3..2T
+	// operations past the end of every history)
+	depthByN := map[int]int{1: 4, 2: 4, 3: 3, 4: 3}
 	wideDepth := 1
 	if !run.Quick() {
-		depthByN = map[int]int{1: 6, 2: 6, 3: 6, 4: 6}
-		wideDepth = 2
+		depthByN = map[int]int{1: 6, 2: 6, 3: 4, 4: 4}
 	}
 	if v := os.Getenv("VERIF_C16_DEPTHS"); v != "" { // development aid: "d1,d2,d3,d4,wide"
 		var d [5]int
